@@ -84,6 +84,50 @@ def oracle(mv, fresh, hist):
     return None
 
 
+class ListTracker:
+    """a base tracker with MUTABLE internal state (keeps its values in a list): per-key copies must not share it"""
+
+    def __init__(self):
+        self.values = []
+        self.tracked_value = 0
+        self.N = 0
+
+    def update(self, v):
+        self.values.append(v)
+        self.N += 1
+        self.tracked_value = sum(self.values, Q(0)) / len(self.values)
+        return self
+
+    def get(self):
+        return self.tracked_value
+
+    def __call__(self):
+        return self.tracked_value
+
+
+def mutable_base_fails(rng):
+    """independence of the per-key copies for base trackers with in-place mutable state"""
+    from ixai.utils.tracker import MultiValueTracker, SlidingWindowTracker
+    for label, mk in (("SlidingWindowTracker(2)", lambda: SlidingWindowTracker(2)), ("SlidingWindowTracker(3)", lambda: SlidingWindowTracker(3)),
+                      ("list-based tracker", ListTracker)):
+        mv = MultiValueTracker(mk())
+        ref = {}
+        hist = [{"a": 3.0}, {"a": 1.0, "b": 200.0}, {"b": 100.0, "c": -7.0}, {"a": 5.0, "c": 2.0}, {"a": 2.0, "b": 4.0, "c": 6.0}]
+        for t, u in enumerate(hist):
+            mv.update(dict(u))
+            for k in u:
+                if k not in ref:
+                    ref[k] = mk()
+            for k in ref:
+                ref[k].update(u.get(k, 0))
+            got = mv.get()
+            for k in ref:
+                a, b = float(got[k]), float(ref[k].get())
+                if abs(a - b) > 1e-9 * max(1.0, abs(b)):
+                    return f"MultiValueTracker({label}) after update {t + 1} of {hist}: key {k!r} reports {a}, an independent copy fed its zero-filled series reports {b}"
+    return None
+
+
 def type_sweep_fails():
     """zero-sum fallback for every numeric type: never NaN/inf"""
     import numpy as np
@@ -94,9 +138,13 @@ def type_sweep_fails():
         for base in (WelfordTracker(), ExponentialSmoothingTracker(1)):
             for vals in ({"a": 1, "b": -1}, {"a": 0, "b": 0}, {"a": 2, "b": -1, "c": -1}):
                 mv = MultiValueTracker(base)
-                with np.errstate(all="ignore"):
-                    mv.update({k: conv(v) for k, v in vals.items()})
-                    norm = mv.get_normalized()
+                try:
+                    with np.errstate(all="ignore"):
+                        mv.update({k: conv(v) for k, v in vals.items()})
+                        norm = mv.get_normalized()
+                except Exception as ex:
+                    out.append((name, type(base).__name__, vals, f"raised {core.err_kind(ex)}"))
+                    continue
                 bad = [k for k, v in norm.items() if not (float(v) == 0.0)]
                 if bad:
                     out.append((name, type(base).__name__, vals, {k: repr(v) for k, v in norm.items()}))
@@ -169,6 +217,13 @@ def run(tier="quick", seed=0, replay=None):
                 chk.tie_failure("correspondence:MultiValueTracker", f"{desc}: impl={str(core.jnorm(steps))[:400]} model={str(model)[:400]}")
     else:
         chk.tie_failure("driver", "model driver not built")
+    chk.case({"mutable_base_trackers": ["SlidingWindowTracker(2)", "SlidingWindowTracker(3)", "list-based"]}, nontrivial=True, sample=False)
+    try:
+        f = mutable_base_fails(chk.rng)
+    except Exception as ex:
+        f = f"MultiValueTracker over a base tracker with mutable state raised {core.err_kind(ex)}: {ex}"
+    if f:
+        chk.violation("shared-base-state", f, {"base": "mutable"})
     for name, base, vals, norm in type_sweep_fails()[:3]:
         chk.violation("zero-sum:" + name, f"MultiValueTracker({base}) with {name} values {vals}: normalised view is {norm}, not all zeros",
                       {"type": name, "base": base, "values": vals})
